@@ -13,6 +13,8 @@ static int junk_on;
 static unsigned char junk_byte;
 static long alloc_failed;
 
+void sim_alloc_fail_set(long k) { alloc_fail_at = k; }   /* absolute ordinal; 0 disarms (for in-process scenario drivers) */
+
 long sim_alloc_count(void) { return alloc_count; }
 
 int sim_alloc_plan(int argc, char **argv)
